@@ -654,17 +654,18 @@ Section RunP.
     serving (fst (serve_req D Req Resp handle r q)) /\ exists a, snd (serve_req D Req Resp handle r q) = Answer a.
   Proof.
     intros [up st] q (U & [c d] & S & C). cbn in *. subst. unfold serve_req. cbn.
-    destruct (handle d q) as [d' a]. cbn. split; eauto. split; eauto.
+    destruct (handle d q) as [d' a]. cbn. split; eauto. split; auto.
+    exists (MkP false d'). auto.
   Qed.
 
   (* a reload at ANY point of ANY request history changes no answer and no contents *)
   Lemma reload_transparent : forall es r, serving r ->
-    run_events D Req Resp handle empty es r = run_events D Req Resp handle empty (requests_of es) r.
+    run_events D Req Resp handle empty es r = run_events D Req Resp handle empty (requests_of Req es) r.
   Proof.
-    induction es as [|[q|] es IH]; intros r S; cbn; auto.
+    induction es as [|[q|] es IH]; intros r S; cbn [run_events requests_of filter]; auto.
     - destruct (serve_req D Req Resp handle r q) as [r' o] eqn:E.
       pose proof (serve_req_serving r q S) as (S' & _). rewrite E in S'. cbn in S'.
-      rewrite IH by auto. reflexivity.
+      fold (requests_of Req es). rewrite IH by auto. reflexivity.
     - rewrite reload_noop by auto. apply IH, S.
   Qed.
 
@@ -676,12 +677,12 @@ Section RunP.
     exists rf os, run_events D Req Resp handle empty es r = Some (rf, os) /\ serving rf /\
                   Forall (fun o => exists a, o = Answer a) os.
   Proof.
-    induction es as [|[q|] es IH]; intros r S; cbn.
+    induction es as [|[q|] es IH]; intros r S; cbn [run_events].
     - exists r, []. auto.
     - destruct (serve_req D Req Resp handle r q) as [r' o] eqn:E.
       pose proof (serve_req_serving r q S) as (S' & a & A). rewrite E in S', A. cbn in S', A.
-      destruct (IH r' S') as (rf & os & R & SF & F). rewrite R. exists rf, (o :: os). repeat split; auto.
-      constructor; eauto.
+      destruct (IH r' S') as (rf & os & R & SF & F). rewrite R. exists rf, (o :: os).
+      split; [reflexivity|]. split; [exact SF|]. constructor; eauto.
     - rewrite reload_noop by auto. apply IH, S.
   Qed.
 
